@@ -340,10 +340,34 @@ func execC13(seq []int, faults []int, keepLog bool) (res c13run, conn *pgfake.Co
 				fail("spurious-error", op, fmt.Sprintf("step %d Stop of a clean transaction fails without a fault in it: %v", i, err))
 				return
 			}
+			wasClean := txClean
 			endTx(err == nil)
+			// the writes of a clean explicit transaction are visible at Stop, to every connection: checked now,
+			// before the recorded after-Stop behaviour of the store can blur it
+			if wasClean {
+				com := srv.Committed()
+				for _, k := range []string{k1, k2} {
+					v, present := com[k]
+					if !cert.ok(k, v, present) {
+						fail("explicit-transaction-not-published-at-stop", op, fmt.Sprintf("step %d Stop returned %v; committed %q=%q (present=%v), acceptable %q", i, err, k[1:], v, present, cert[k]))
+						return
+					}
+				}
+			}
 			stopped = true
 		case opAbort:
+			wasClean := txClean
 			endTx(false)
+			if wasClean {
+				com := srv.Committed()
+				for _, k := range []string{k1, k2} {
+					v, present := com[k]
+					if !cert.ok(k, v, present) {
+						fail("aborted-transaction-left-writes", op, fmt.Sprintf("step %d Abort; committed %q=%q (present=%v), acceptable %q", i, k[1:], v, present, cert[k]))
+						return
+					}
+				}
+			}
 		}
 	}
 	// quiescence: Close
